@@ -1528,7 +1528,7 @@ Proof.
       apply (relC_special w s s' mo _ c0 IA' R); auto.
       + apply cli_same_rep; reflexivity.
       + intros c Hc Hne. apply cli_frame; try reflexivity. unfold s'. simp_st. apply updf_other. exact Hne.
-      + unfold cinvC. remember (cl s' c0) as l0 eqn:El0. unfold s' in El0. simp_st. rewrite updf_same in El0. subst l0. simp_st. rewrite Epc. split; [apply (cli_gone s s'); auto|].
+      + unfold cinvC. remember (cl s' c0) as l0 eqn:El0. unfold s' in El0. simp_st. rewrite updf_same in El0. subst l0. simp_st. split; [apply (cli_gone s s'); auto|].
         exists cm. auto.
       + intros E. congruence.
       + rewrite (cli_ldr s s') by reflexivity. intros Aq. apply (cli_alive s s') in Aq; [|reflexivity]. apply (rc_q w s mo R Aq).
@@ -1555,7 +1555,7 @@ Proof.
       * unfold s'. simp_st. rewrite upd_net_other by (right; discriminate). reflexivity.
       * apply Hfo. exact Hne.
     + (* Q *)
-      unfold cinvC. remember (cl s' c0) as l0 eqn:El0. unfold s' in El0. simp_st. rewrite updf_same in El0. subst l0. simp_st. rewrite Epc. exists cm. split; [exact Ecm|]. left.
+      unfold cinvC. remember (cl s' c0) as l0 eqn:El0. unfold s' in El0. simp_st. rewrite updf_same in El0. subst l0. simp_st. exists cm. split; [first [exact Ecm | reflexivity]|]. left.
       rewrite (cli_ldr s s') by reflexivity. fold q0.
       split; [reflexivity|]. split; [rewrite Hq1, fromc_app; fold q0 in G3; rewrite G3; cbn; rewrite Nat.eqb_refl; reflexivity|].
       split; [intros SC; apply G4; apply (cli_serving s s' eq_refl eq_refl); exact SC|].
